@@ -71,3 +71,104 @@ MUTANTS += [
       edits=[('include/core/bigint.hpp', '            for (int i = word_length - 1; i != -1; i--) {\n                word_t new_shift_in = a.words[i] << ((sizeof(word_t) * 8) - amt);\n                this->words[i] = shift_in | (a.words[i] >> amt);\n                shift_in = new_shift_in;',
               '            for (int i = word_length - 1; i != -1; i--) {\n                this->words[i] = shift_in | (a.words[i] >> amt);\n                shift_in = a.words[i] << ((sizeof(word_t) * 8) - amt);')]),
 ]
+MUTANTS += [
+ dict(name='c01-prepared-final-drop-g2-check', prop='C01', expect='R-GUARD/G1',
+      edits=[('src/bls12_381/pairing.cpp', """            if (!pair.g1->is_zero() && !pair.g2->is_zero()) {
+                ell(result, pair.g2->coeffs[pair.coeff_idx++], *pair.g1);
+            }
+        }
+
+        if constexpr""", """            if (!pair.g1->is_zero()) {
+                ell(result, pair.g2->coeffs[pair.coeff_idx++], *pair.g1);
+            }
+        }
+
+        if constexpr""")]),
+ dict(name='c01-affine-addstep-or-instead-of-and', prop='C01', expect='R-GUARD/G1',
+      edits=[('src/bls12_381/pairing.cpp', """                    if (!pair.g1->is_zero() && !pair.g2->is_zero()) {
+                        miller_addition_step(""", """                    if (!pair.g1->is_zero() || !pair.g2->is_zero()) {
+                        miller_addition_step(""")]),
+ dict(name='c01-benign-continue-style', prop='C01', benign=True, expect='',
+      edits=[('src/bls12_381/pairing.cpp', """            if (!pair.g1->is_zero() && !pair.g2->is_zero()) {
+                miller_doubling_step(coeffs, pair.r);
+                ell(result, coeffs, *pair.g1);
+            }
+        }
+        for (size_t j = 0; j != num_prepared_pairs; j++) {
+            PreparedPair& pair = prepared_pairs[j];
+            if (!pair.g1->is_zero() && !pair.g2->is_zero()) {
+                ell(result, pair.g2->coeffs[pair.coeff_idx++], *pair.g1);
+            }
+        }
+
+        if constexpr""", """            if (pair.g1->is_zero() || pair.g2->infinity) {
+                continue;
+            }
+            miller_doubling_step(coeffs, pair.r);
+            ell(result, coeffs, *pair.g1);
+        }
+        for (size_t j = 0; j != num_prepared_pairs; j++) {
+            PreparedPair& pair = prepared_pairs[j];
+            if (!pair.g1->is_zero() && !pair.g2->is_zero()) {
+                ell(result, pair.g2->coeffs[pair.coeff_idx++], *pair.g1);
+            }
+        }
+
+        if constexpr""")]),
+ dict(name='c05-drop-equal-points-detour-mixed', prop='C05', expect='R-GUARD/G4',
+      edits=[('include/bls12_381/curve.hpp', """            if (BaseField::equal(a.x, u2) && BaseField::equal(a.y, s2)) {
+                this->multiply2(a);
+                return;
+            }""", """            if (BaseField::equal(a.x, u2) && BaseField::equal(a.y, s2) && a.z.is_zero()) {
+                this->multiply2(a);
+                return;
+            }""")]),
+ dict(name='c05-equal-detour-only-x', prop='C05', expect='R-GUARD/G4',
+      edits=[('include/bls12_381/curve.hpp', """            if (BaseField::equal(u1, u2) && BaseField::equal(s1, s2)) {""", """            if (BaseField::equal(u1, u2)) {""")]),
+ dict(name='c05-b-zero-copies-b', prop='C05', expect='R-GUARD/G4',
+      edits=[('include/bls12_381/curve.hpp', """        void add(const Projective<BaseField>& a, const Projective<BaseField>& __restrict b) {
+            if (b.is_zero()) {
+                this->copy(a);""", """        void add(const Projective<BaseField>& a, const Projective<BaseField>& __restrict b) {
+            if (b.is_zero()) {
+                this->copy(b);""")]),
+ dict(name='c05-from-projective-no-zero-guard', prop='C05', expect='R-GUARD/G5',
+      edits=[('include/bls12_381/curve.hpp', """            if (a.is_zero()) {
+                this->copy(zero);
+                return;
+            }
+#ifndef""", """            if (a.is_zero() && a.x.is_zero()) {
+                this->copy(zero);
+                return;
+            }
+#ifndef""")]),
+]
+MUTANTS += [
+ dict(name='c02-fq-inv-low-word', prop='C02', expect='montInvWord',
+      edits=[('include/bls12_381/fq.hpp', '.std_words = { 0xfffcfffd, 0x89f3fffc, 0xd9d113e8', '.std_words = { 0xfffcfffd, 0x89f3fffd, 0xd9d113e8')]),
+ dict(name='c02-benign-fq-inv-unused-high-word', prop='C02', benign=True, expect='',
+      edits=[('include/bls12_381/fq.hpp', '0xfeaafc94, 0xceb06106 }', '0xfeaafc94, 0xceb06107 }')]),
+ dict(name='c02-fr-R2-typo', prop='C02', expect='montR2',
+      edits=[('include/bls12_381/fr.hpp', '0xf3f29c6d, 0xc999e990', '0xf3f29c6d, 0xc999e991')]),
+ dict(name='c02-fr-random-mask-ff', prop='C02', expect='mask|r|random',
+      edits=[('src/bls12_381/fr.cpp', """            this->val.bytes[BigInt<fr_bits>::byte_length - 1] &= 0x7F;
+        } while""", """            this->val.bytes[BigInt<fr_bits>::byte_length - 1] &= 0xFF;
+        } while""")]),
+ dict(name='c02-negate-zero-unguarded', prop='C02', expect='R-GUARD/G3',
+      edits=[('include/core/fp.hpp', """            if (a.val.is_zero()) {
+#ifdef RESIST_SIDE_CHANNELS
+                this->val.subtract(a.val, BigInt<bits>::zero);
+#else
+                this->val.copy(a.val);
+#endif
+            } else {
+                this->val.subtract(p, a.val);
+            }""", """            this->val.subtract(p, a.val);""")]),
+ dict(name='c02-tonelli-root-wrong', prop='C02', expect='tonelli-root',
+      edits=[('src/bls12_381/fr.cpp', '.std_words = {0x5f0e466a, 0xb9b58d8c', '.std_words = {0x5f0e466b, 0xb9b58d8c')]),
+ dict(name='c04-frobenius-fq6-c2-entry', prop='C04', expect='frob|fq6_frobenius_coeff',
+      edits=[('src/bls12_381/fq6.cpp', '{{{{.std_words = {0x798a64e8, 0x30f1361b,', '{{{{.std_words = {0x798a64e9, 0x30f1361b,')]),
+ dict(name='c04-frobenius-index-mod-7', prop='C04', expect='R-BOUNDS',
+      edits=[('src/bls12_381/fq6.cpp', 'unsigned int coeff_idx = power < 6 ? power : power % 6;', 'unsigned int coeff_idx = power < 7 ? power : power % 7;')]),
+ dict(name='c04-fq12-table-entry', prop='C04', expect='frob|fq12_frobenius_coeff_c1',
+      edits=[('src/bls12_381/fq12.cpp', '{{{{.std_words = {0xa55c9ad1, 0x3e2f585d,', '{{{{.std_words = {0xa55c9ad1, 0x3e2f585c,')]),
+]
